@@ -738,3 +738,22 @@ fn da_waiting_into_tap_chord_start() {
     assert!(l.states.len() == 2, "the chord action is held on every participating key, including the one that started the chord");
     core::mem::forget(l);
 }
+
+// @harness name=da_layer_twice prop=C04,C01 tier=quick timeout=1500
+// @encodes Layout::do_action (Layer arm) when the same layer is already held by another key
+// @inst Layout<3, 2, u8>
+// @bounds constant action layer-while-held 2; pre-state: layer 2 already held by the key (0,2); the second layer key is (0,1); symbolic delay
+// @assumes none beyond the bounds
+// @spec every press of a layer-while-held key records its own held-layer state (2 states afterwards), so that the layer stays active until BOTH keys are released and each release undoes exactly its own press
+#[kani::proof]
+#[kani::unwind(4)]
+fn da_layer_twice() {
+    let action: Action<'_, u8> = Action::Layer(2);
+    let mut l: Layout<'_, 3, 2, u8> = vk_layout_literal(&VK_SRC, &VK_LAYERS);
+    let _ = l.states.push(LayerModifier { value: 2, coord: (0, 2) });
+    let ev = l.do_action(&action, (0, 1), kani::any(), false, &mut std::iter::empty::<u16>());
+    assert!(matches!(ev, CustomEvent::NoEvent));
+    assert!(l.states.len() == 2, "the second key holding the same layer gets its own state");
+    assert!(matches!(l.states[1], LayerModifier { value: 2, coord: (0, 1) }));
+    core::mem::forget(l);
+}
